@@ -80,7 +80,7 @@ def eval_unit(unit, tier):
         for inj in f.injects:
             inj_text += inj.text
         for lp in f.loops:
-            inj_text += lp.body_entry or ""
+            inj_text += (lp.body_entry or "") + (lp.body_exit or "")
     for nm, pat in SCAN:
         out["scan"][nm] = len(re.findall(pat, base["text"]))
     if re.search(r"\b(assume|admit)\s*\(", inj_text) or re.search(r"\badmit\s*\(", lem_text) or \
@@ -90,6 +90,9 @@ def eval_unit(unit, tier):
     smt = base["smt"]
     out["smt_ms"] = sum(v["ms"] for v in smt.values())
     for m in base["metas"]:
+        if m["mode"] in ("type", "pinned"):
+            out.setdefault("types", []).append({"key": m["key"], "where": f"/repo/{m['src']}:{m['line']}", "sha256": m["sha256"], "mode": m["mode"]})
+            continue
         (out["functions"] if m["mode"] == "prove" else out["assumed_functions"]).append(
             {"key": m["key"], "where": f"/repo/{m['src']}:{m['line']}", "sha256": m["sha256"], "rules": m.get("rules", []),
              "mode": m["mode"]})
@@ -115,7 +118,7 @@ def eval_unit(unit, tier):
                                    "text": "no arithmetic overflow/underflow, index in bounds, unwrap/expect on Some/Ok, divisor non-zero, callee preconditions, loop/recursion termination",
                                    "props": list(f.implicit_props), "verdict": verdict, "backend": "verus/z3",
                                    "characterisation": False, "detail": [e["rendered"] for e in errs]})
-        if f.injects or any(lp.body_entry for lp in f.loops):
+        if f.injects or any(lp.body_entry or lp.body_exit for lp in f.loops):
             errs = pf.get("proof", [])
             allp = sorted({p for c in f.clauses() for p in c.props} | set(f.implicit_props))
             verdict = "failed" if errs else ("undecided" if resource else "discharged")
@@ -213,7 +216,7 @@ def main(argv):
                     continue
                 ids += [f"{u.name}/{f.key}#{c.cid}" for c in f.clauses() if c.kind not in ("requires", "closure_requires")]
                 ids.append(f"{u.name}/{f.key}#safety")
-                if f.injects or any(lp.body_entry for lp in f.loops):
+                if f.injects or any(lp.body_entry or lp.body_exit for lp in f.loops):
                     ids.append(f"{u.name}/{f.key}#proof")
             cen[u.name] = sorted(ids)
         json.dump(cen, open(os.path.join(VERIF, "units", "census.json"), "w"), indent=1, sort_keys=True)
